@@ -869,15 +869,519 @@ theorem c13_stale_sigma_counterexample :
     have := (Real.sqrt_inj (by norm_num) (by norm_num)).mp h3
     norm_num at this
 
+/-! ## 6. review round: guarded gaussian constructor, cdf tied to the profile values -/
+
+/-- the window of every constructed gaussian is ordered (discharges `hse` of `c13_gauss_integral`) -/
+theorem c13_gauss_window_ordered (t0 σ tol : ℝ) :
+    (gaussNew t0 σ tol).tStart ≤ (gaussNew t0 σ tol).tStop := by
+  rw [gaussNew_eq]
+  have h : 0 ≤ gaussHalfWidth σ tol := by
+    simp only [gaussHalfWidth, TranscReal.sqrt_def]; exact Real.sqrt_nonneg _
+  simp only [gaussSpec]; linarith
+
+/-- inside the domain of the constructor (`0 < tol < 1`, `σ ≠ 0`: where the code yields no NaN) the
+support has positive width -/
+theorem c13_gauss_window_strict {t0 σ tol : ℝ} (h0 : 0 < tol) (h1 : tol < 1) (hσ : σ ≠ 0) :
+    (gaussNew t0 σ tol).tStart < (gaussNew t0 σ tol).tStop := by
+  rw [gaussNew_eq]
+  have hlog : Real.log tol < 0 := Real.log_neg h0 h1
+  have hss : 0 < σ * σ := mul_self_pos.mpr hσ
+  have h : 0 < gaussHalfWidth σ tol := by
+    simp only [gaussHalfWidth, TranscReal.sqrt_def, TranscReal.log_def]
+    apply Real.sqrt_pos.mpr
+    nlinarith
+  simp only [gaussSpec]; linarith
+
+/-- what the checked constructor guarantees -/
+theorem c13_gauss_checked {t0 σ tol : ℝ} {g : Gauss ℝ} (h : gaussNewChecked t0 σ tol = some g) :
+    g = gaussNew t0 σ tol ∧ 0 < tol ∧ tol < 1 ∧ g.sigma ≠ 0 ∧ g.tStart < g.tStop ∧ Fresh (.gauss g) := by
+  unfold gaussNewChecked at h
+  split_ifs at h with hc
+  obtain ⟨h0, h1, hs⟩ := hc
+  have hσ : σ ≠ 0 := by simpa using hs
+  simp only [Option.some.injEq] at h
+  subst h
+  refine ⟨rfl, h0, h1, ?_, c13_gauss_window_strict h0 h1 hσ, ?_⟩
+  · rw [gaussNew_eq]; exact hσ
+  · rw [C13.fresh_gauss_iff, gaussNew_eq]; simp [gaussT0_spec]
+
+/-- **gaussian, constructed object**: closed form = integral of the profile values for every
+interval, with no hypothesis on the stored window (it is discharged from the constructor). -/
+theorem c13_gauss_integral_constructed {erf : ℝ → ℝ} (herf : C13.IsErf erf) {t0 σ tol : ℝ} {g : Gauss ℝ}
+    (h : gaussNewChecked t0 σ tol = some g) (t1 t2 : ℝ) :
+    ∫ t in t1..t2, gaussCall g t = gaussIntegral erf g t1 t2 := by
+  obtain ⟨_, _, _, hσ, hlt, _⟩ := c13_gauss_checked h
+  exact c13_gauss_integral herf g hσ hlt.le t1 t2
+
+/-- **gaussian cdf = ∫ profile values up to t / ∫ profile values over the support**, and the total
+integral is positive (no division by zero) -/
+theorem c13_gauss_cdf_integral {erf : ℝ → ℝ} (herf : C13.IsErf erf) (g : Gauss ℝ) (hσ : g.sigma ≠ 0)
+    (hse : g.tStart < g.tStop) {t : ℝ} (ht : g.tStart ≤ t) :
+    gaussCdf erf g t = (∫ x in g.tStart..t, gaussCall g x) / (∫ x in g.tStart..g.tStop, gaussCall g x) ∧
+    0 < ∫ x in g.tStart..g.tStop, gaussCall g x := by
+  have hpos : 0 < ∫ x in g.tStart..g.tStop, gaussCall g x := by
+    have e : ∫ x in g.tStart..g.tStop, gaussCall g x = ∫ x in g.tStart..g.tStop, gaussShape g x := by
+      apply intervalIntegral.integral_congr_Ioo_of_le hse.le
+      intro x hx
+      simp [gaussCall, hx.1.le, hx.2]
+    rw [e]
+    apply intervalIntegral.intervalIntegral_pos_of_pos_on
+      ((C13.gaussShape_continuous g).intervalIntegrable _ _) _ hse
+    intro x _
+    simp only [gaussShape, TranscReal.exp_def]
+    exact Real.exp_pos _
+  refine ⟨?_, hpos⟩
+  have htot : gaussTotal erf g = ∫ x in g.tStart..g.tStop, gaussCall g x := by
+    unfold gaussTotal; rw [c13_gauss_integral herf g hσ hse.le]
+  rw [c13_gauss_cdf erf g t hse.le (by rw [htot]; exact hpos.ne'), if_neg (not_lt.mpr ht), htot,
+    ← c13_gauss_integral herf g hσ hse.le g.tStart t]
+
+/-- **box cdf = ∫ profile values up to t / ∫ profile values over the support** -/
+theorem c13_box_cdf_integral (w : Win ℝ) (hse : w.tStart < w.tStop) {t : ℝ} (ht : w.tStart ≤ t) :
+    boxCdf w t = (∫ x in w.tStart..t, boxCall w x) / (∫ x in w.tStart..w.tStop, boxCall w x) ∧
+    0 < ∫ x in w.tStart..w.tStop, boxCall w x := by
+  rw [c13_box_integral w hse.le ht, c13_box_integral w hse.le hse.le, c13_box_cdf w t hse, if_neg (not_lt.mpr ht)]
+  refine ⟨rfl, ?_⟩
+  rw [C13.boxIntegral_eq_clip w hse.le hse.le, C13.clip_of_mem le_rfl hse.le, C13.clip_of_mem hse.le le_rfl]
+  linarith
+
+/-- cut-off power law: the integral of the profile values is the integral of power law × exp (the
+code has no closed form; its numerical `get_integral` is compared with the model's Simpson sum) and is
+strictly below the plain power-law closed form the class used to inherit. -/
+theorem c13_cutoff_integral_lt_powerlaw {E0 γ Ec E1 E2 : ℝ} (hE0 : 0 < E0) (hEc : 0 < Ec) (h1 : 0 < E1) (h12 : E1 < E2) :
+    ∫ x in E1..E2, cutoffCall E0 γ Ec x < plIntegral E0 γ E1 E2 := by
+  have h2 : 0 < E2 := h1.trans h12
+  rw [← c13_pl_integral hE0 h1 h2]
+  have hc1 : ContinuousOn (fun x => plCall E0 γ x) (Set.uIcc E1 E2) := C13.plCall_continuousOn hE0 h1 h2
+  have hc2 : ContinuousOn (fun x => cutoffCall E0 γ Ec x) (Set.uIcc E1 E2) := by
+    have : (fun x => cutoffCall E0 γ Ec x) = fun x => plCall E0 γ x * Real.exp (-x / Ec) := by
+      funext x; exact c13_cutoff_call E0 γ Ec x
+    rw [this]
+    exact hc1.mul (by fun_prop)
+  apply intervalIntegral.integral_lt_integral_of_continuousOn_of_le_of_exists_lt h12
+    (by rwa [Set.uIcc_of_le h12.le] at hc2) (by rwa [Set.uIcc_of_le h12.le] at hc1)
+  · intro x hx
+    have hx0 : 0 < x := h1.trans hx.1
+    rw [c13_cutoff_call]
+    have hp : 0 < plCall E0 γ x := by rw [C13.plCall_eq hE0 hx0]; positivity
+    have he : Real.exp (-x / Ec) ≤ 1 := Real.exp_le_one_iff.mpr (by
+      have : 0 < x / Ec := div_pos hx0 hEc
+      rw [neg_div]; linarith)
+    nlinarith
+  · refine ⟨E2, ⟨h12.le, le_rfl⟩, ?_⟩
+    rw [c13_cutoff_call]
+    have hp : 0 < plCall E0 γ E2 := by rw [C13.plCall_eq hE0 h2]; positivity
+    have he : Real.exp (-E2 / Ec) < 1 := Real.exp_lt_one_iff.mpr (by
+      have : 0 < E2 / Ec := div_pos h2 hEc
+      rw [neg_div]; linarith)
+    nlinarith
+/-! ## 7. review round: `FactorizedFluxModel.__call__` as modelled (`Heap.call`) -/
+
+/-- **flux = Phi0 × spatial × energy × time for the call itself**: the result of `Heap.call` is the
+outer product of the values of the three referenced profiles at the unit-converted arguments; a `None`
+argument contributes the single factor 1 (`evalArg _ none = some [1]`). -/
+theorem c13_ffm_call_product (h : Heap ℝ) (i s e tt : Nat) (phi0 : ℝ) (cs ce ct : Cell ℝ)
+    (ang : Option (List (ℝ × ℝ))) (E t : Option (List ℝ)) (uA uE uT : Option ℝ)
+    (hi : h[i]? = some (.ffm phi0 [s, e, tt])) (hs : h[s]? = some cs) (he : h[e]? = some ce)
+    (ht : h[tt]? = some ct) :
+    h.call i ang E t uA uE uT =
+      (evalArg (fun p : ℝ × ℝ => cs.evalS (conv p.1 uA, conv p.2 uA)) ang).bind fun S =>
+      (evalArg (fun x => ce.evalE (conv x uE)) E).bind fun Ev =>
+      (evalArg (fun x => ct.evalT (conv x uT)) t).map fun Tv => fluxOuter phi0 S Ev Tv := by
+  unfold Heap.call
+  simp only [hi, hs, he, ht]
+  cases evalArg (fun p : ℝ × ℝ => cs.evalS (conv p.1 uA, conv p.2 uA)) ang <;>
+    cases evalArg (fun x => ce.evalE (conv x uE)) E <;>
+    cases evalArg (fun x => ct.evalT (conv x uT)) t <;> rfl
+
+/-- `None` for the energies (times, position) = the factor 1 -/
+theorem c13_ffm_call_none (f : ℝ → Option ℝ) : evalArg f none = some [1] := rfl
+
+theorem C13.mapM_map_option {α β γ : Type} (f : β → Option γ) (g : α → β) (xs : List α) :
+    (xs.map g).mapM f = xs.mapM (fun x => f (g x)) := by
+  induction xs with
+  | nil => rfl
+  | cons x xs ih => simp [List.mapM_cons, ih]
+
+/-- **unit invariance of the flux-model call**: energies given as `x * u.to(u')` with
+`energy_unit = u'` give the same flux array as `x` with `energy_unit = u` (same for times). -/
+theorem c13_ffm_call_unit_invariant_energy (h : Heap ℝ) (i : Nat) (ang : Option (List (ℝ × ℝ)))
+    (E : List ℝ) (t : Option (List ℝ)) (uA uT : Option ℝ) (su su' sp : ℝ) (h' : su' ≠ 0) (hp : sp ≠ 0) :
+    h.call i ang (some (E.map (· * C13.unitTo su su'))) t uA (some (C13.unitTo su' sp)) uT
+      = h.call i ang (some E) t uA (some (C13.unitTo su sp)) uT := by
+  unfold Heap.call
+  have key : ∀ ce : Cell ℝ, evalArg (fun x => ce.evalE (conv x (some (C13.unitTo su' sp)))) (some (E.map (· * C13.unitTo su su')))
+      = evalArg (fun x => ce.evalE (conv x (some (C13.unitTo su sp)))) (some E) := by
+    intro ce
+    simp only [evalArg]
+    rw [C13.mapM_map_option]
+    congr 1
+    funext x
+    rw [c13_unit_invariance x su su' sp h' hp]
+  cases h[i]? with
+  | none => rfl
+  | some c =>
+    cases c with
+    | ffm phi0 refs =>
+      match refs with
+      | [s, e, tt] =>
+        simp only []
+        cases h[s]? <;> cases h[e]? <;> cases h[tt]? <;> simp only [] <;> rw [key]
+      | [] => rfl
+      | [_] => rfl
+      | [_, _] => rfl
+      | _ :: _ :: _ :: _ :: _ => rfl
+    | _ => rfl
+
+theorem c13_ffm_call_unit_invariant_time (h : Heap ℝ) (i : Nat) (ang : Option (List (ℝ × ℝ)))
+    (E : Option (List ℝ)) (t : List ℝ) (uA uE : Option ℝ) (su su' sp : ℝ) (h' : su' ≠ 0) (hp : sp ≠ 0) :
+    h.call i ang E (some (t.map (· * C13.unitTo su su'))) uA uE (some (C13.unitTo su' sp))
+      = h.call i ang E (some t) uA uE (some (C13.unitTo su sp)) := by
+  unfold Heap.call
+  have key : ∀ ct : Cell ℝ, evalArg (fun x => ct.evalT (conv x (some (C13.unitTo su' sp)))) (some (t.map (· * C13.unitTo su su')))
+      = evalArg (fun x => ct.evalT (conv x (some (C13.unitTo su sp)))) (some t) := by
+    intro ct
+    simp only [evalArg]
+    rw [C13.mapM_map_option]
+    congr 1
+    funext x
+    rw [c13_unit_invariance x su su' sp h' hp]
+  cases h[i]? with
+  | none => rfl
+  | some c =>
+    cases c with
+    | ffm phi0 refs =>
+      match refs with
+      | [s, e, tt] =>
+        simp only []
+        cases h[s]? <;> cases h[e]? <;> cases h[tt]? <;> simp only [] <;> rw [key]
+      | [] => rfl
+      | [_] => rfl
+      | [_, _] => rfl
+      | _ :: _ :: _ :: _ :: _ => rfl
+    | _ => rfl
+
+/-- `move(dt, unit)` is unit invariant as well -/
+theorem c13_move_unit_invariant (h : Heap ℝ) (i : Nat) (dt su su' sp : ℝ) (h' : su' ≠ 0) (hp : sp ≠ 0) :
+    h.moveU i (dt * C13.unitTo su su') (some (C13.unitTo su' sp)) = h.moveU i dt (some (C13.unitTo su sp)) := by
+  unfold Heap.moveU; rw [c13_unit_invariance dt su su' sp h' hp]
+
+/-- `copy(newparams)` sets the parameters on the copy: every pre-existing object is unchanged -/
+theorem c13_copy_set_independent (pn : ParamNames) (h h' : Heap ℝ) (i j : Nat) (pd : PDict ℝ)
+    (hcs : h.copySet pn i pd = some (h', j)) (k : Nat) (hk : k < h.length) : h'[k]? = h[k]? := by
+  unfold Heap.copySet at hcs
+  cases hc : h.copy i with
+  | none => simp [hc] at hcs
+  | some r =>
+    obtain ⟨h1, j1⟩ := r
+    simp only [hc, Option.map_some, Option.some.injEq, Prod.mk.injEq] at hcs
+    obtain ⟨rfl, rfl⟩ := hcs
+    exact c13_copy_independent pn h h1 i j1 pd hc k hk
+/-- a cell without its references (the references of a copy are fresh indices) -/
+def C13.erase : Cell ℝ → Cell ℝ
+  | .ffm p _ => .ffm p []
+  | c => c
+
+theorem C13.filterMap_map_some {α β : Type} (f : α → Option β) (l : List α) (hl : ∀ a ∈ l, (f a).isSome) :
+    (l.filterMap f).map some = l.map f := by
+  induction l with
+  | nil => rfl
+  | cons a l ih =>
+    have ha := hl a List.mem_cons_self
+    obtain ⟨b, hb⟩ := Option.isSome_iff_exists.mp ha
+    simp [List.filterMap_cons, hb, ih (fun x hx => hl x (List.mem_cons_of_mem _ hx))]
+
+theorem C13.range_map_append {α : Type} (h cells tail : List α) :
+    (List.range' h.length cells.length).map (fun x => (h ++ cells ++ tail)[x]?) = cells.map some := by
+  apply List.ext_getElem?
+  intro k
+  simp only [List.getElem?_map, List.getElem?_range']
+  by_cases hk : k < cells.length
+  · simp [hk, List.getElem?_append_left, List.getElem?_append_right]
+  · simp [hk, List.getElem?_eq_none (not_lt.mp hk)]
+
+/-- **the copy is a copy**: the copy and everything it refers to have exactly the state of the
+original and of what the original refers to (only the reference indices differ). -/
+theorem c13_copy_same_state (h h' : Heap ℝ) (i j : Nat) (hcp : h.copy i = some (h', j))
+    (hwf : ∀ c, h[i]? = some c → ∀ r ∈ C13.refs c, r < h.length) :
+    (h'.view j).map (Option.map C13.erase) = (h.view i).map (Option.map C13.erase) := by
+  unfold Heap.copy at hcp
+  cases hc : h[i]? with
+  | none => simp [hc] at hcp
+  | some c =>
+    rw [hc] at hcp
+    have hwf' := hwf c hc
+    cases c with
+    | ffm phi0 rs =>
+      simp only [Option.some.injEq, Prod.mk.injEq] at hcp
+      obtain ⟨rfl, rfl⟩ := hcp
+      set cells := List.filterMap (fun x => h[x]?) rs with hcells
+      have hsome : ∀ r ∈ rs, (h[r]?).isSome := by
+        intro r hr
+        have := hwf' r (by simpa [C13.refs] using hr)
+        simp [this]
+      have hmap : cells.map some = rs.map (fun x => h[x]?) := C13.filterMap_map_some _ rs hsome
+      have hj : (h ++ cells ++ [Cell.ffm phi0 (List.range' h.length cells.length)])[h.length + cells.length]? =
+          some (Cell.ffm phi0 (List.range' h.length cells.length)) := by
+        rw [List.getElem?_append_right (by simp)]; simp
+      unfold Heap.view
+      rw [C13.targets_eq, hj, C13.targets_eq, hc]
+      simp only [C13.refs, List.map_cons, hj, hc, Option.map_some, C13.erase, List.map_map]
+      congr 1
+      have e1 := C13.range_map_append h cells [Cell.ffm phi0 (List.range' h.length cells.length)]
+      have : List.map (Option.map C13.erase ∘ fun x => (h ++ cells ++ [Cell.ffm phi0 (List.range' h.length cells.length)])[x]?)
+          (List.range' h.length cells.length) = (cells.map some).map (Option.map C13.erase) := by
+        rw [← e1, List.map_map]
+      rw [this, hmap, List.map_map]
+    | _ =>
+      simp only [Option.some.injEq, Prod.mk.injEq] at hcp
+      obtain ⟨rfl, rfl⟩ := hcp
+      unfold Heap.view
+      rw [C13.targets_eq, C13.targets_eq, hc]
+      simp [C13.refs, hc]
+namespace C13
+
+theorem upd_refs (pn : ParamNames) (pd : PDict ℝ) (acc : Heap ℝ × Bool) (j k : Nat) :
+    ((upd pn pd acc j).1[k]?).map refs = (acc.1[k]?).map refs := by
+  unfold upd
+  cases hj : acc.1[j]? with
+  | none => rfl
+  | some c =>
+    simp only []
+    by_cases hk : k = j
+    · subst hk
+      have hlt : k < acc.1.length := by
+        by_contra hge
+        rw [List.getElem?_eq_none (not_lt.mp hge)] at hj
+        cases hj
+      simp [List.getElem?_set_self hlt, hj, cell_setParams_refs]
+    · simp [List.getElem?_set_ne (Ne.symm hk)]
+
+theorem fold_refs (pn : ParamNames) (pd : PDict ℝ) (l : List Nat) (acc : Heap ℝ × Bool) (k : Nat) :
+    ((l.foldl (upd pn pd) acc).1[k]?).map refs = (acc.1[k]?).map refs := by
+  induction l generalizing acc with
+  | nil => rfl
+  | cons j l ih => rw [List.foldl_cons, ih, upd_refs]
+
+theorem move_refs (c c' : Cell ℝ) (dt : ℝ) (h : c.move dt = some c') : refs c' = refs c := by
+  cases c <;> simp [Cell.move] at h <;> subst h <;> rfl
+
+/-- the part of the heap created by a copy (indices `≥ n`) is closed under references and the part
+below `n` is still the old heap -/
+def Sep (n : Nat) (h0 h : Heap ℝ) : Prop :=
+  n ≤ h.length ∧ (∀ k, k < n → h[k]? = h0[k]?) ∧
+  (∀ k c, n ≤ k → h[k]? = some c → ∀ r ∈ refs c, n ≤ r)
+
+theorem sep_step (pn : ParamNames) (n : Nat) (h0 h h1 : Heap ℝ) (op : Op ℝ) (hs : Sep n h0 h)
+    (ht : n ≤ op.target) (hst : h.step pn op = some h1) : Sep n h0 h1 := by
+  obtain ⟨hlen, hold, hrefs⟩ := hs
+  cases op with
+  | setParams i pd =>
+    simp only [Op.target] at ht
+    simp only [Heap.step] at hst
+    split_ifs at hst with hi
+    simp only [Option.some.injEq] at hst
+    subst hst
+    rw [setParams_eq_fold]
+    refine ⟨by rw [fold_length]; exact hlen, ?_, ?_⟩
+    · intro k hk
+      rw [fold_get_notMem pn pd _ _ k ?_]
+      · exact hold k hk
+      · intro hm
+        rw [targets_eq] at hm
+        cases hc : h[i]? with
+        | none => simp [hc] at hm
+        | some c =>
+          rw [hc] at hm
+          rcases List.mem_cons.mp hm with rfl | hm'
+          · omega
+          · have := hrefs i c ht hc k hm'; omega
+    · intro k c hk hkc r hr
+      have hr' := fold_refs pn pd (targets h i) (h, false) k
+      rw [hkc] at hr'
+      cases hc0 : h[k]? with
+      | none => simp [hc0] at hr'
+      | some c0 =>
+        simp only [hc0, Option.map_some, Option.some.injEq] at hr'
+        exact hrefs k c0 hk hc0 r (hr' ▸ hr)
+  | move i dt =>
+    simp only [Op.target] at ht
+    simp only [Heap.step] at hst
+    have hfr := fun k hk => c13_move_frame h h1 i k dt hst hk
+    unfold Heap.move at hst
+    cases hc : h[i]? with
+    | none => simp [hc] at hst
+    | some c =>
+      rw [hc] at hst
+      cases hmv : c.move dt with
+      | none => simp [hmv] at hst
+      | some c' =>
+        simp only [hmv, Option.map_some, Option.some.injEq] at hst
+        refine ⟨by rw [← hst]; simpa using hlen, ?_, ?_⟩
+        · intro k hk
+          rw [hfr k (by omega)]; exact hold k hk
+        · intro k ck hk hkc r hr
+          by_cases hki : k = i
+          · subst hki
+            have hlt : k < h.length := by
+              by_contra hge
+              rw [List.getElem?_eq_none (not_lt.mp hge)] at hc
+              cases hc
+            rw [← hst, List.getElem?_set_self hlt] at hkc
+            simp only [Option.some.injEq] at hkc
+            subst hkc
+            rw [move_refs c c' dt hmv] at hr
+            exact hrefs k c hk hc r hr
+          · rw [hfr k hki] at hkc
+            exact hrefs k ck hk hkc r hr
+  | copy i =>
+    simp only [Op.target] at ht
+    simp only [Heap.step] at hst
+    cases hcp : h.copy i with
+    | none => simp [hcp] at hst
+    | some res =>
+      obtain ⟨h2, j⟩ := res
+      simp only [hcp, Option.map_some, Option.some.injEq] at hst
+      subst hst
+      obtain ⟨happ, _⟩ := c13_copy_appends h h2 i j hcp
+      unfold Heap.copy at hcp
+      cases hc : h[i]? with
+      | none => simp [hc] at hcp
+      | some c =>
+        rw [hc] at hcp
+        have hci := hrefs i c ht hc
+        cases c with
+        | ffm phi0 rs =>
+          simp only [Option.some.injEq, Prod.mk.injEq] at hcp
+          obtain ⟨rfl, rfl⟩ := hcp
+          refine ⟨by simp; omega, fun k hk => by rw [happ k (by omega)]; exact hold k hk, ?_⟩
+          intro k ck hk hkc r hr
+          rw [List.append_assoc, List.getElem?_append] at hkc
+          split_ifs at hkc with hkl
+          · exact hrefs k ck hk hkc r hr
+          · rw [List.getElem?_append] at hkc
+            split_ifs at hkc with hkm
+            · have hmem : ck ∈ List.filterMap (fun x => h[x]?) rs := List.mem_of_getElem? hkc
+              obtain ⟨x, hx, hxc⟩ := List.mem_filterMap.mp hmem
+              exact hrefs x ck (hci x (by simpa [refs] using hx)) hxc r hr
+            · have hk0 : k - h.length - (List.filterMap (fun x => h[x]?) rs).length = 0 := by
+                by_contra hne
+                rw [List.getElem?_eq_none (by simp; omega)] at hkc
+                cases hkc
+              rw [hk0] at hkc
+              simp only [List.getElem?_cons_zero, Option.some.injEq] at hkc
+              subst hkc
+              simp only [refs, List.mem_range'_1] at hr
+              omega
+        | _ =>
+          simp only [Option.some.injEq, Prod.mk.injEq] at hcp
+          obtain ⟨rfl, rfl⟩ := hcp
+          refine ⟨by simp; omega, fun k hk => by rw [happ k (by omega)]; exact hold k hk, ?_⟩
+          intro k ck hk hkc r hr
+          rw [List.getElem?_append] at hkc
+          split_ifs at hkc with hkl
+          · exact hrefs k ck hk hkc r hr
+          · have hk0 : k - h.length = 0 := by
+              by_contra hne
+              rw [List.getElem?_eq_none (by simp; omega)] at hkc
+              cases hkc
+            rw [hk0] at hkc
+            simp only [List.getElem?_cons_zero, Option.some.injEq] at hkc
+            subst hkc
+            simp [refs] at hr
+
+end C13
+
+theorem C13.sep_run (pn : ParamNames) (n : Nat) (h0 : Heap ℝ) (ops : List (Op ℝ)) :
+    ∀ (h h'' : Heap ℝ), C13.Sep n h0 h → (∀ op ∈ ops, n ≤ op.target) → Heap.run pn h ops = some h'' →
+      C13.Sep n h0 h'' := by
+  induction ops with
+  | nil => intro h h'' hs _ hr; simp only [Heap.run, Option.some.injEq] at hr; subst hr; exact hs
+  | cons op ops ih =>
+    intro h h'' hs hops hr
+    simp only [Heap.run] at hr
+    cases hst : h.step pn op with
+    | none => simp [hst] at hr
+    | some h1 =>
+      rw [hst] at hr
+      exact ih h1 h'' (C13.sep_step pn n h0 h h1 op hs (hops op List.mem_cons_self) hst)
+        (fun o ho => hops o (List.mem_cons_of_mem _ ho)) hr
+
+/-- **histories on the heap**: after a copy, *any* sequence of `set_params` / `move` / `copy`
+addressed to the copy, to what it refers to, or to objects created later leaves every object that
+existed before the copy — the original and its profiles — exactly as it was.
+(`hflat`: the objects a flux model refers to are profiles, which refer to nothing.) -/
+theorem c13_run_copy_independent (pn : ParamNames) (h h' h'' : Heap ℝ) (i j : Nat) (ops : List (Op ℝ))
+    (hcp : h.copy i = some (h', j))
+    (hflat : ∀ c, h[i]? = some c → ∀ r ∈ C13.refs c, ∀ c', h[r]? = some c' → C13.refs c' = [])
+    (hops : ∀ op ∈ ops, h.length ≤ op.target) (hr : Heap.run pn h' ops = some h'') :
+    ∀ k, k < h.length → h''[k]? = h[k]? := by
+  obtain ⟨happ, _⟩ := c13_copy_appends h h' i j hcp
+  have hsep : C13.Sep h.length h h' := by
+    unfold Heap.copy at hcp
+    cases hc : h[i]? with
+    | none => simp [hc] at hcp
+    | some c =>
+      rw [hc] at hcp
+      have hfl := hflat c hc
+      cases c with
+      | ffm phi0 rs =>
+        simp only [Option.some.injEq, Prod.mk.injEq] at hcp
+        obtain ⟨rfl, rfl⟩ := hcp
+        refine ⟨by simp, happ, ?_⟩
+        intro k ck hk hkc r hr
+        rw [List.append_assoc, List.getElem?_append] at hkc
+        split_ifs at hkc with hkl
+        · omega
+        · rw [List.getElem?_append] at hkc
+          split_ifs at hkc with hkm
+          · have hmem : ck ∈ List.filterMap (fun x => h[x]?) rs := List.mem_of_getElem? hkc
+            obtain ⟨x, hx, hxc⟩ := List.mem_filterMap.mp hmem
+            rw [hfl x (by simpa [C13.refs] using hx) ck hxc] at hr
+            cases hr
+          · have hk0 : k - h.length - (List.filterMap (fun x => h[x]?) rs).length = 0 := by
+              by_contra hne
+              rw [List.getElem?_eq_none (by simp; omega)] at hkc
+              cases hkc
+            rw [hk0] at hkc
+            simp only [List.getElem?_cons_zero, Option.some.injEq] at hkc
+            subst hkc
+            simp only [C13.refs, List.mem_range'_1] at hr
+            omega
+      | _ =>
+        simp only [Option.some.injEq, Prod.mk.injEq] at hcp
+        obtain ⟨rfl, rfl⟩ := hcp
+        refine ⟨by simp, happ, ?_⟩
+        intro k ck hk hkc r hr
+        rw [List.getElem?_append] at hkc
+        split_ifs at hkc with hkl
+        · omega
+        · have hk0 : k - h.length = 0 := by
+            by_contra hne
+            rw [List.getElem?_eq_none (by simp; omega)] at hkc
+            cases hkc
+          rw [hk0] at hkc
+          simp only [List.getElem?_cons_zero, Option.some.injEq] at hkc
+          subst hkc
+          simp [C13.refs] at hr
+  exact (C13.sep_run pn h.length h ops h' h'' hsep hops hr).2.1
+
 /-! ## non-vacuity of the hypotheses used above -/
 
 example : ∃ E0 γ E1 E2 : ℝ, 0 < E0 ∧ 0 < E1 ∧ 0 < E2 ∧ γ ≠ 1 :=
   ⟨10, 2, 100, 1000, by norm_num, by norm_num, by norm_num, by norm_num⟩
 example : C13.IsErf C13.erfR := C13.erfR_isErf
-example : ∃ g : Gauss ℝ, g.sigma ≠ 0 ∧ g.tStart ≤ g.tStop := ⟨⟨-1, 1, 1, 2⟩, by norm_num, by norm_num⟩
+/-- a constructed gaussian inside the domain of the constructor (t0 = 0, σ = 1, tol = e⁻²) -/
+example : ∃ g, gaussNewChecked (0:ℝ) 1 (Real.exp (-2)) = some g := by
+  unfold gaussNewChecked
+  rw [if_pos ⟨Real.exp_pos _, Real.exp_lt_one_iff.mpr (by norm_num), by simp⟩]
+  exact ⟨_, rfl⟩
+example : ∃ g : Gauss ℝ, g.sigma ≠ 0 ∧ g.tStart < g.tStop :=
+  ⟨gaussNew 0 1 (Real.exp (-2)), by rw [gaussNew_eq]; simp [gaussSpec],
+    c13_gauss_window_strict (Real.exp_pos _) (Real.exp_lt_one_iff.mpr (by norm_num)) one_ne_zero⟩
 example : ∃ w : Win ℝ, w.tStart < w.tStop := ⟨⟨0, 1⟩, by norm_num⟩
 example : ∃ su su' sp : ℝ, su' ≠ 0 ∧ sp ≠ 0 ∧ su ≠ su' := ⟨1000, 1, 1000000, by norm_num, by norm_num, by norm_num⟩
-example : Fresh (construct (.gauss ⟨0, 0, 1, 2⟩) (fun _ => 1)) := c13_construct_fresh _ _
+example : Fresh (construct (.gauss ⟨0, 0, 1, 1 / 2⟩) (fun _ => 1)) := c13_construct_fresh _ _
 example : Fresh (.box ⟨3, 5⟩) := c13_fresh_of_not_gauss _ (by intro g h; cases h)
 /-- a heap with a factorized flux model (spatial, energy, time profile at 0,1,2): `copy` is defined,
 its targets are distinct, and the references of the model point into the heap -/
@@ -887,3 +1391,12 @@ example : (targets ([.unityS, .pl 1 2, .box ⟨0, 1⟩, .ffm 1 [0, 1, 2]] : Heap
   simp [targets]
 example : (C13.runOps (.box ⟨3, 5⟩) [.setParams [(.t0, 1)], .move 2]).isSome := by
   simp [C13.runOps, C13.applyOp, Cell.move, C13.update_box, construct]
+/-- the references of the flux model in the example heap point into the heap, to profiles (`hwf`, `hflat`) -/
+example : ∀ c, ([.unityS, .pl 1 2, .box ⟨0, 1⟩, .ffm 1 [0, 1, 2]] : Heap ℝ)[3]? = some c →
+    ∀ r ∈ C13.refs c, r < 4 := by
+  intro c hc r hr
+  simp only [List.getElem?_cons_succ, List.getElem?_cons_zero, Option.some.injEq] at hc
+  subst hc
+  simp [C13.refs] at hr
+  omega
+example : (0:ℝ) < 1 ∧ (0:ℝ) < 500 ∧ (0:ℝ) < 100 ∧ (100:ℝ) < 1000 := by norm_num
